@@ -320,8 +320,15 @@ class Pass1(CompilePass):
                not Type.name_ends_with_type_char(decl.name):
                 letter = decl.name[0].lower()
                 if letter in self.compilation.def_letter_types:
-                    letter = decl.name[0].lower()
-                    param_type = self.compilation.def_letter_types[letter]
+                    def_type = self.compilation.def_letter_types[letter]
+                    if param_type.is_array:
+                        # an array parameter stays an array
+                        param_type = def_type.modified(
+                            is_array=True,
+                            array_dims=param_type.array_dims,
+                            is_nodim_array=param_type.is_nodim_array)
+                    else:
+                        param_type = def_type
             params.append((decl.name, param_type))
 
         routine = Routine(node.name, 'sub', self.compilation, params,
@@ -352,8 +359,15 @@ class Pass1(CompilePass):
                not Type.name_ends_with_type_char(decl.name):
                 letter = decl.name[0].lower()
                 if letter in self.compilation.def_letter_types:
-                    letter = decl.name[0].lower()
-                    param_type = self.compilation.def_letter_types[letter]
+                    def_type = self.compilation.def_letter_types[letter]
+                    if param_type.is_array:
+                        # an array parameter stays an array
+                        param_type = def_type.modified(
+                            is_array=True,
+                            array_dims=param_type.array_dims,
+                            is_nodim_array=param_type.is_nodim_array)
+                    else:
+                        param_type = def_type
             params.append((decl.name, param_type))
 
         routine = Routine(node.name, 'function', self.compilation,
